@@ -42,17 +42,6 @@ def showViewRows (r : Rows) : String :=
     ++ "|obs=" ++ showList toString "," r.obs ++ "|mask=" ++ showList showBool "," r.mask
     ++ "|tids=" ++ showList showIds ";" r.tids ++ "|sids=" ++ showIds r.sids ++ "|pids=" ++ showIds r.pids
 
-/-- the rows `np.vstack(arrs).T` of equally long columns -/
-def zipColumns (cols : List (List Int)) (n : Nat) : List (List Int) :=
-  (List.range n).map (fun i => cols.map (fun c => c[i]!))
-
-/-- `select_unique_zipped_numpy_arrays` -/
-def selectUnique : List (List Int) → Except Err (List Bool)
-  | [] => .error .valueError
-  | c :: rest =>
-    if rest.any (fun x => x.length != c.length) then .error .valueError
-    else .ok (uniqueMask (zipColumns (c :: rest) c.length))
-
 def handle : List String → Option String
   | "uniq" :: cols => do
       let cs ← cols.mapM parseIntList?
